@@ -76,6 +76,36 @@ pub fn single_instance(inst: u8, levels: u8, port_levels: u8) -> Vec<AbsFp> {
     out
 }
 
+/// Distinct-resources universe: every footprint claims exactly ONE resource (read or write) out
+/// of {node X, node Y, edge E0, edge E1 (raw id = X's), α slot of X, α slot of Y, β slot of E0,
+/// β slot of E1} in instance 0, or one port (id 0 / id 1, in / out) — 24 footprints.  Two claims
+/// conflict iff they name the SAME resource and one writes; claims on different resources never do,
+/// however similar their identifiers (same raw bytes in another class, another plane, another id).
+pub fn distinct_resources() -> Vec<AbsFp> {
+    let mut out = Vec::new();
+    for (class, n) in [(Class::Node, 2u8), (Class::Edge, 2), (Class::Att, 2), (Class::AttEdge, 2)] {
+        for idx in 0..n {
+            for w in [false, true] {
+                let mut f = AbsFp::default();
+                f.claims.push(Claim { inst: 0, class, idx, r: !w, w });
+                out.push(f);
+            }
+        }
+    }
+    for id in 0..2u8 {
+        for (inp, outp) in [(true, false), (false, true)] {
+            let mut f = AbsFp::default();
+            f.ports.push(PortClaim { inst: 0, id, inp, out: outp });
+            out.push(f);
+        }
+    }
+    // one write claim of node X in the OTHER instance (same local id, different instance)
+    let mut f = AbsFp::default();
+    f.claims.push(Claim { inst: 1, class: Class::Node, idx: 0, r: false, w: true });
+    out.push(f);
+    out
+}
+
 fn merge(a: &AbsFp, b: &AbsFp) -> AbsFp {
     let mut f = a.clone();
     f.claims.extend(b.claims.iter().copied());
@@ -430,6 +460,13 @@ pub fn run(r: &Report) {
     }
     add(r, "singles", st);
 
+    // distinct resources with look-alike identifiers: all pairs and all triples (both tiers)
+    {
+        let ud = Uni::new("21 single-resource footprints over look-alike ids", distinct_resources());
+        add(r, "pairs:distinct-resources", sweep_pairs(r, &ud, true));
+        add(r, "triples:distinct-resources", sweep_triples(r, &ud, true));
+    }
+
     if r.quick() {
         add(r, "pairs:instance0:81x81", sweep_pairs(r, &u81, true));
         let u81b = Uni::new("81 footprints, instance 1", single_instance(1, 3, 3));
@@ -449,7 +486,7 @@ pub fn run(r: &Report) {
                     f.claims.iter().all(|c| match c.class {
                         Class::Node => true,
                         Class::Edge => c.w,
-                        Class::Att => c.r,
+                        Class::Att | Class::AttEdge => c.r,
                     })
                 })
                 .collect(),
